@@ -585,9 +585,12 @@ class _CUR(GreedySelector):
         initial importance.
         """
         for c in self.selected_idx_:
+            # the residual of an item that was already projected out is zero up to
+            # rounding *relative to the item itself*; an absolute threshold would
+            # re-orthogonalize by (normalized) rounding noise for large-valued X
             if self.recompute_every != 0 and (
                 np.linalg.norm(np.take(self.X_current_, [c], axis=self._axis))
-                > self.tolerance
+                > self.tolerance * np.linalg.norm(np.take(X, [c], axis=self._axis))
             ):
                 self._orthogonalize(last_selected=c)
 
@@ -765,9 +768,12 @@ class _PCovCUR(GreedySelector):
         their initial importance.
         """
         for c in self.selected_idx_:
+            # the residual of an item that was already projected out is zero up to
+            # rounding *relative to the item itself*; an absolute threshold would
+            # re-orthogonalize by (normalized) rounding noise for large-valued X
             if self.recompute_every != 0 and (
                 np.linalg.norm(np.take(self.X_current_, [c], axis=self._axis))
-                > self.tolerance
+                > self.tolerance * np.linalg.norm(np.take(X, [c], axis=self._axis))
             ):
                 self._orthogonalize(last_selected=c)
 
